@@ -16,6 +16,8 @@
 (*                                (C07, C08)                               *)
 (*   MulInt    q * k              raw operator's type (C13)                *)
 (*   CmpLit    q <, ==, > u2(R2{w})   exact order (C08), state unchanged    *)
+(*   ModLit    q % u2(R2{w})      remainder in the common unit (C08)       *)
+(*   DivInt    q / k              raw truncating quotient (C13)            *)
 (*   Neg       -q                                                          *)
 (* Only steps whose result is defined (no overflow at any stage the        *)
 (* single-operation specifications name) are taken, so a generated walk    *)
@@ -71,6 +73,21 @@ DoCmp(s, r2, ui, w) ==
              /\ ImplicitOK(s.rep, c, "rat", k1, One) /\ ImplicitOK(r2, c, "rat", k2, One)
              /\ InRange(c, e1) /\ InRange(c, e2) /\ InRange(c, k1) /\ InRange(c, k2),
       ord |-> Cmp(e1, e2)]
+\* q % literal: each operand is brought to the common unit in its OWN rep, then the raw % (sign of the dividend); unit = common unit
+DoMod(s, r2, ui, w) ==
+  LET n2 == UnitsW[ui][2]  d2 == UnitsW[ui][3]
+      k1 == Cof1(s.n, s.d, n2, d2)  k2 == Cof2(s.n, s.d, n2, d2)
+      cu == Cu(s.n, s.d, n2, d2)
+      e1 == Mul(s.v, k1)  e2 == Mul(w, k2)
+      rr == PlusRep(CommonType(s.rep, r2))
+  IN [ok |-> /\ Signed(s.rep) = Signed(r2)
+             /\ ImplicitOK(s.rep, s.rep, "rat", k1, One) /\ ImplicitOK(r2, r2, "rat", k2, One)
+             /\ InRange(s.rep, e1) /\ InRange(r2, e2) /\ InRange(s.rep, k1) /\ InRange(r2, k2)
+             /\ e2 # Zero /\ e2 # Neg(One),
+      st |-> St(rr, cu[1], cu[2], IF e2 = Zero THEN Zero ELSE DivModT(e1, e2)[2])]
+\* q / k for an integer k: the raw operator (truncating), in the raw operator's type
+DoDivInt(s, k) == LET rr == CommonType(s.rep, "i32")  res == DivModT(s.v, FromInt(k))[1] IN
+  [ok |-> k # 0 /\ InRange(rr, res) /\ InRange(rr, s.v) /\ (Signed(rr) \/ k > 0), st |-> St(rr, s.n, s.d, res)]
 DoMul(s, k) == LET rr == CommonType(s.rep, "i32")  res == Mul(s.v, FromInt(k)) IN
   [ok |-> InRange(rr, res) /\ InRange(rr, s.v) /\ (Signed(rr) \/ k > 0), st |-> St(rr, s.n, s.d, res)]
 DoNeg(s) == [ok |-> InRange(Promote(s.rep), Neg(s.v)), st |-> St(Promote(s.rep), s.n, s.d, Neg(s.v))]
